@@ -11,7 +11,7 @@ use serde_json::{json, Value};
 use vph::fgen;
 use vph::refdec;
 
-pub const RULE: &str = "every frame of (1) the crate's encoder output over C01 sets (b),(d),(g),(h),(i),(j),(k),(l) (thorough: + (a),(e)), (2) every valid fgen stream within 3 (thorough 4) deviations and every stream of the header code-table sweep (all block-size / sample-rate / depth / channel-assignment codes) and single frames carrying coded frame / sample numbers at every length boundary (0x7F/0x80 … 0x7FFFFFFF fixed, … 0xFFFFFFFFF variable), (3) every fgen stream with one malformation (valid checksums) on the plain stream and its single deviations, is cut out and wrapped into a one-frame stream whose STREAMINFO leaves the total unknown; Frame::read and the streaming decoder must both accept or both reject it; for accepted frames every subframe expands to exactly block-size samples, inverse decorrelation of those samples equals the streaming decoder's output, and Frame::write reproduces the original bytes whenever the independent decoder reports a minimal-length coded number and zero padding bits";
+pub const RULE: &str = "every frame of (1) the crate's encoder output over C01 sets (b),(d),(g),(h),(i),(j),(k),(l) (thorough: + (a),(e)), (2) every valid fgen stream within 3 (thorough 4) deviations and every stream of the header code-table sweep (all block-size / sample-rate / depth / channel-assignment codes) frames with every partition order 0..15 on blocks up to 32768 samples, and single frames carrying coded frame / sample numbers at every length boundary (0x7F/0x80 … 0x7FFFFFFF fixed, … 0xFFFFFFFFF variable), (3) every fgen stream with one malformation (valid checksums) on the plain stream and its single deviations, is cut out and wrapped into a one-frame stream whose STREAMINFO leaves the total unknown; Frame::read and the streaming decoder must both accept or both reject it; for accepted frames every subframe expands to exactly block-size samples, inverse decorrelation of those samples equals the streaming decoder's output, and Frame::write reproduces the original bytes whenever the independent decoder reports a minimal-length coded number and zero padding bits";
 pub const ASSUMPTIONS: &[&str] = &["frames are judged individually under the original STREAMINFO with total/MD5 cleared; stream-level rules (numbering, totals, short-block placement) are C05's business"];
 pub fn bounds(quick: bool) -> Value {
     json!({"crate_output_sets": if quick { "b,d,g,h,i" } else { "a,b,d,e,g,h,i" }, "valid_deviations": if quick { 3 } else { 4 }, "malformed": "1 malformation × ≤1 valid deviation"})
@@ -161,6 +161,15 @@ pub fn run(ctx: &Ctx, acc: &mut Acc) {
         }
         if let Ok(b) = fgen::build(&spec) {
             run_stream(acc, "valid-header-tables", &b.bytes, &b.frame_offsets, origin);
+        }
+    }
+    // (2b') partition orders up to 15
+    for (spec, origin) in crate::gspace::partition_high_specs() {
+        if !ctx.mine() {
+            continue;
+        }
+        if let Ok(b) = fgen::build(&spec) {
+            run_stream(acc, "valid-partition-high", &b.bytes, &b.frame_offsets, origin);
         }
     }
     // (2c) coded frame / sample numbers at every UTF-8-style length boundary (1..7 bytes), fixed and variable blocking;
